@@ -455,7 +455,7 @@ class Flyer(_Base, StageableMixin):
 
     def __init__(self, sim, name, spec, world):
         super().__init__(sim, name, spec, world)
-        self._streams = spec.get("streams", {"primary": [name + "_a"]})
+        self._streams = spec.get("streams", {name + "_stream": [name + "_a"]})
         self._n = spec.get("events", 2)
         self._kicked = 0
 
@@ -603,7 +603,8 @@ KINDS = {
 def build_world(sim, specs):
     """specs: {name: {"kind": ..., ...}} -> {name: device}"""
     world = {}
-    for i, (name, spec) in enumerate(specs.items()):
+    # sorted: the world must not depend on dict order (replay files are written with sorted keys)
+    for i, (name, spec) in enumerate(sorted(specs.items())):
         spec = dict(spec)
         spec.setdefault("hash", 1000 + i)
         world[name] = KINDS[spec["kind"]](sim, name, spec, world)
